@@ -1,8 +1,11 @@
 (* Node/Typed.v — the typed assemblers of the two engines (bindnode = reflection, gendemo = generated
-   code) for the two types the C12 harness drives:
-       type Msg3 struct { whee Int  woot Int  waga Int }        (TyS)
-       type Map__String__Msg3 {String:Msg3}                     (TyM)
+   code) for the family of schema types
+       TyS     type Msg3 struct { whee Int  woot Int  waga Int }
+       TyM vt  {String:vt}          TyL et  [et]            (nested to any depth)
    as a state machine over the same assembler calls as Node/Basic.v.  MODEL file: definitions only.
+   Tied to the code by the C12 run for bindnode on S, MS, LS, LMS, MMS, MLS, … (inferred Go types) and for
+   the generated code on the two types gendemo has (S = Msg3, MS = Map__String__Msg3); the generated
+   list assembler is modelled after schema/gen/go/genpartsList.go and is not exercised by a run.
 
    Scope: faithful on the call sequences of the legal grammar with injected rejections (repeated
    key through AssembleEntry or through the key assembler, wrong-kind assignments at key and value
@@ -17,24 +20,29 @@
      tq_gen_struct_stuck  generated struct key assembler: a rejected key (repeated, unknown) leaves
                           the state at midKey, so the next AssembleKey/AssembleEntry/Finish panics
      tq_gen_map_key_nodup generated map: a key supplied through AssembleKey is never checked against
-                          the keys already present (AssembleEntry is) *)
+                          the keys already present (AssembleEntry is)
+     tq_gen_map_node_panics generated map: AssignNode of a non-empty map node of another
+                          implementation panics (the generic path never calls BeginMap: nil lookup map) *)
 Require Import IP.Base.Bytes IP.DM.Value IP.Node.Basic.
 Open Scope N_scope.
 
 Inductive engine := EBind | EGen.
-Inductive tty := TyS | TyM.
+Inductive tty := TyS | TyM (vt : tty) | TyL (et : tty).
 
 Record tquirks := {
   tq_bind_struct_nodup : bool;
   tq_bind_map_nodup : bool;
   tq_bind_reset_panics : bool;
   tq_gen_struct_stuck : bool;
-  tq_gen_map_key_nodup : bool
+  tq_gen_map_key_nodup : bool;
+  tq_gen_map_node_panics : bool
 }.
 Definition tpinned : tquirks :=
-  {| tq_bind_struct_nodup := true; tq_bind_map_nodup := true; tq_bind_reset_panics := true; tq_gen_struct_stuck := true; tq_gen_map_key_nodup := true |}.
+  {| tq_bind_struct_nodup := true; tq_bind_map_nodup := true; tq_bind_reset_panics := true; tq_gen_struct_stuck := true; tq_gen_map_key_nodup := true;
+     tq_gen_map_node_panics := true |}.
 Definition trepaired : tquirks :=
-  {| tq_bind_struct_nodup := false; tq_bind_map_nodup := false; tq_bind_reset_panics := false; tq_gen_struct_stuck := false; tq_gen_map_key_nodup := false |}.
+  {| tq_bind_struct_nodup := false; tq_bind_map_nodup := false; tq_bind_reset_panics := false; tq_gen_struct_stuck := false; tq_gen_map_key_nodup := false;
+     tq_gen_map_node_panics := false |}.
 
 Definition f_whee : bytes := [119; 104; 101; 101].
 Definition f_woot : bytes := [119; 111; 111; 116].
@@ -54,12 +62,18 @@ Definition svals := list (nat * Z).
 Inductive tsst := TsInitial | TsMidKey | TsExpectValue (f : nat) | TsMidValue (f : nat).
 Inductive tmst := TmInitial | TmMidKey | TmExpectValue (k : bytes) | TmMidValue (k : bytes).
 
+Inductive tlst := TlInitial | TlMidValue.
+
+(* values under assembly / assembled: a struct is its assignments (oldest first), a map its entry
+   table in insertion order, a list its elements *)
+Inductive tval := TVS (vals : svals) | TVM (t : list (bytes * tval)) | TVL (x : list tval).
+
 Inductive tframe :=
 | TRoot (ty : tty)
 | TStruct (done : list nat) (vals : svals) (st : tsst)
-| TMap (t : list (bytes * svals)) (st : tmst).
+| TMap (vt : tty) (t : list (bytes * tval)) (st : tmst)
+| TList (et : tty) (x : list tval) (st : tlst).
 
-Inductive tval := TVStruct (vals : svals) | TVMap (t : list (bytes * svals)).
 Inductive tstate := TOpen (stk : list tframe) | TDone (v : tval).
 Inductive toutcome := TOk (s : tstate) | TErr (e : terr) (s : tstate) | TPanic | TNoMethod.
 
@@ -67,10 +81,12 @@ Definition tinit (ty : tty) : tstate := TOpen [TRoot ty].
 
 Definition has (f : nat) (l : list nat) : bool := existsb (Nat.eqb f) l.
 
-Definition tdeliver_struct (stk : list tframe) (vals : svals) : toutcome :=
+(* the finished value arrives at the assembler that was waiting for it *)
+Definition tdeliver (stk : list tframe) (v : tval) : toutcome :=
   match stk with
-  | TRoot TyS :: _ => TOk (TDone (TVStruct vals))
-  | TMap t (TmMidValue k) :: r => TOk (TOpen (TMap (t ++ [(k, vals)]) TmInitial :: r))
+  | TRoot _ :: _ => TOk (TDone v)
+  | TMap vt t (TmMidValue k) :: r => TOk (TOpen (TMap vt (t ++ [(k, v)]) TmInitial :: r))
+  | TList et x TlMidValue :: r => TOk (TOpen (TList et (x ++ [v]) TlInitial :: r))
   | _ => TNoMethod
   end.
 
@@ -93,16 +109,65 @@ Definition as_msg3 (n : node) : option svals :=
 Definition is_map_op (o : aop) : bool :=
   match o with AssembleKey | AssembleValue | AssembleEntry _ | Finish => true | _ => false end.
 
-(* a position holding a struct: root TyS or a map value *)
-Definition struct_pos_op (stk : list tframe) (s : tstate) (o : aop) : toutcome :=
-  match o with
-  | BeginMap _ => TOk (TOpen (TStruct [] [] TsInitial :: stk))
-  | AssignNode n =>
-    match as_msg3 n with
-    | Some vals => tdeliver_struct stk vals
-    | None => if kind_eqb (kind_of n) KMap then TNoMethod else TErr TEWrong s
+(* a node of another implementation read as a value of type ty (what ranging over it assembles);
+   None: it does not conform (or repeats a key) *)
+Fixpoint node_tval (ty : tty) (n : node) : option tval :=
+  match ty with
+  | TyS => match as_msg3 n with Some vals => Some (TVS vals) | None => None end
+  | TyM vt =>
+    match map_entries n with
+    | Some es =>
+      (fix go (es : list (node * node)) (acc : list (bytes * tval)) : option tval :=
+         match es with
+         | [] => Some (TVM acc)
+         | (kn, vn) :: r =>
+           match as_string kn, node_tval vt vn with
+           | Ok k, Some v => if mem_key k acc then None else go r (acc ++ [(k, v)])
+           | _, _ => None
+           end
+         end) es []
+    | None => None
     end
+  | TyL et =>
+    match list_entries n with
+    | Some xs =>
+      (fix go (xs : list node) (acc : list tval) : option tval :=
+         match xs with
+         | [] => Some (TVL acc)
+         | vn :: r => match node_tval et vn with Some v => go r (acc ++ [v]) | None => None end
+         end) xs []
+    | None => None
+    end
+  end.
+
+Definition is_empty_map (v : tval) : bool := match v with TVM [] => true | _ => false end.
+
+(* a position holding a value of type ty: the root builder, a map value, a list element *)
+Definition pos_op (e : engine) (q : tquirks) (ty : tty) (stk : list tframe) (s : tstate) (o : aop) : toutcome :=
+  match o with
   | AssembleKey | AssembleValue | AssembleEntry _ | Finish => TNoMethod
+  | AssignNode n =>
+    let want := match ty with TyL _ => KList | _ => KMap end in
+    match node_tval ty n with
+    | Some v =>
+      match ty, e with
+      | TyM _, EGen =>
+        if tq_gen_map_node_panics q && negb (is_empty_map v) then TPanic else tdeliver stk v
+      | _, _ => tdeliver stk v
+      end
+    | None => if kind_eqb (kind_of n) want then TNoMethod else TErr TEWrong s
+    end
+  | BeginMap _ =>
+    match ty with
+    | TyS => TOk (TOpen (TStruct [] [] TsInitial :: stk))
+    | TyM vt => TOk (TOpen (TMap vt [] TmInitial :: stk))
+    | TyL _ => TErr TEWrong s
+    end
+  | BeginList _ =>
+    match ty with
+    | TyL et => TOk (TOpen (TList et [] TlInitial :: stk))
+    | _ => TErr TEWrong s
+    end
   | _ => TErr TEWrong s
   end.
 
@@ -113,13 +178,7 @@ Definition tstep (e : engine) (q : tquirks) (s : tstate) (o : aop) : toutcome :=
   match s with
   | TDone _ => TNoMethod
   | TOpen [] => TNoMethod
-  | TOpen ((TRoot TyS :: _) as stk) => struct_pos_op stk s o
-  | TOpen ((TRoot TyM :: _) as stk) =>
-    match o with
-    | BeginMap _ => TOk (TOpen (TMap [] TmInitial :: stk))
-    | AssembleKey | AssembleValue | AssembleEntry _ | Finish | AssignNode _ => TNoMethod
-    | _ => TErr TEWrong s
-    end
+  | TOpen ((TRoot ty :: _) as stk) => pos_op e q ty stk s o
   | TOpen (TStruct done vals st :: r) =>
     (* the map-assembler calls as the struct assembler answers them when it expects a key *)
     let at_initial :=
@@ -135,7 +194,7 @@ Definition tstep (e : engine) (q : tquirks) (s : tstate) (o : aop) : toutcome :=
           else TOk (TOpen (TStruct (f :: done) vals (TsMidValue f) :: r))
         end
       | Finish =>
-        if has 0 done && has 1 done && has 2 done then tdeliver_struct r vals
+        if has 0 done && has 1 done && has 2 done then tdeliver r (TVS vals)
         else TErr TEMissing (TOpen (TStruct done vals TsInitial :: r))
       | AssembleValue => match e with EGen => TPanic | EBind => TNoMethod end
       | _ => TNoMethod
@@ -192,19 +251,15 @@ Definition tstep (e : engine) (q : tquirks) (s : tstate) (o : aop) : toutcome :=
       | _ => TErr TEWrong s
       end
     end
-  | TOpen (TMap t st :: r) =>
+  | TOpen (TMap vt t st :: r) =>
     let at_initial :=
       match o with
-      | AssembleKey => TOk (TOpen (TMap t TmMidKey :: r))
+      | AssembleKey => TOk (TOpen (TMap vt t TmMidKey :: r))
       | AssembleEntry k =>
         if mem_key k t && (match e with EGen => true | EBind => negb (tq_bind_map_nodup q) end)
-        then TErr TERepeated (TOpen (TMap t TmInitial :: r))
-        else TOk (TOpen (TMap t (TmMidValue k) :: r))
-      | Finish =>
-        match r with
-        | TRoot TyM :: _ => TOk (TDone (TVMap t))
-        | _ => TNoMethod
-        end
+        then TErr TERepeated (TOpen (TMap vt t TmInitial :: r))
+        else TOk (TOpen (TMap vt t (TmMidValue k) :: r))
+      | Finish => tdeliver r (TVM t)
       | AssembleValue => match e with EGen => TPanic | EBind => TNoMethod end
       | _ => TNoMethod
       end in
@@ -213,8 +268,8 @@ Definition tstep (e : engine) (q : tquirks) (s : tstate) (o : aop) : toutcome :=
     | TmMidKey =>
       let give := fun (k : bytes) =>
         let checked := match e with EGen => negb (tq_gen_map_key_nodup q) | EBind => negb (tq_bind_map_nodup q) end in
-        if mem_key k t && checked then TErr TERepeated (TOpen (TMap t TmInitial :: r))
-        else TOk (TOpen (TMap t (TmExpectValue k) :: r)) in
+        if mem_key k t && checked then TErr TERepeated (TOpen (TMap vt t TmInitial :: r))
+        else TOk (TOpen (TMap vt t (TmExpectValue k) :: r)) in
       match o with
       | AssignString k => give k
       | AssignNode n => match as_string n with Ok k => give k | Err _ => TErr TEWrong s end
@@ -224,7 +279,7 @@ Definition tstep (e : engine) (q : tquirks) (s : tstate) (o : aop) : toutcome :=
       end
     | TmExpectValue k =>
       match o with
-      | AssembleValue => TOk (TOpen (TMap t (TmMidValue k) :: r))
+      | AssembleValue => TOk (TOpen (TMap vt t (TmMidValue k) :: r))
       | AssembleKey | AssembleEntry _ | Finish =>
         match e with EGen => TPanic | EBind => at_initial end
       | _ => TNoMethod
@@ -234,7 +289,22 @@ Definition tstep (e : engine) (q : tquirks) (s : tstate) (o : aop) : toutcome :=
       | AssembleKey | AssembleEntry _ | Finish =>
         match e with EGen => TPanic | EBind => at_initial end
       | AssembleValue => match e with EGen => TPanic | EBind => TNoMethod end
-      | _ => struct_pos_op (TMap t (TmMidValue k) :: r) s o
+      | _ => pos_op e q vt (TMap vt t (TmMidValue k) :: r) s o
+      end
+    end
+  | TOpen (TList et x st :: r) =>
+    match st with
+    | TlInitial =>
+      match o with
+      | AssembleValue => TOk (TOpen (TList et x TlMidValue :: r))
+      | Finish => tdeliver r (TVL x)
+      | _ => TNoMethod
+      end
+    | TlMidValue =>
+      match o with
+      | AssembleValue | Finish => match e with EGen => TPanic | EBind => TNoMethod end
+      | AssembleKey | AssembleEntry _ => TNoMethod
+      | _ => pos_op e q et (TList et x TlMidValue :: r) s o
       end
     end
   end.
@@ -264,20 +334,28 @@ Definition struct_dm (vals : svals) : dm :=
   DMap [(f_whee, DInt (field_val 0 vals 0)); (f_woot, DInt (field_val 1 vals 0)); (f_waga, DInt (field_val 2 vals 0))].
 
 (* last value stored under a key *)
-Fixpoint last_val (k : bytes) (t : list (bytes * svals)) (acc : svals) : svals :=
+Fixpoint last_dm (k : bytes) (t : list (bytes * dm)) (acc : dm) : dm :=
   match t with
   | [] => acc
-  | (k', v) :: r => last_val k r (if bytes_eqb k k' then v else acc)
+  | (k', v) :: r => last_dm k r (if bytes_eqb k k' then v else acc)
   end.
 
 (* what the built node reads as.  bindnode keeps Keys []string + Values map: a key accepted twice
    is listed twice and both read the last value; the generated map keeps one table entry per
    accepted key, each with its own value *)
-Definition tval_dm (e : engine) (v : tval) : dm :=
+Fixpoint tval_dm (e : engine) (v : tval) : dm :=
   match v with
-  | TVStruct vals => struct_dm vals
-  | TVMap t =>
-    DMap (map (fun kv => (fst kv, struct_dm (match e with EBind => last_val (fst kv) t (snd kv) | EGen => snd kv end))) t)
+  | TVS vals => struct_dm vals
+  | TVM t =>
+    let l := (fix go (t : list (bytes * tval)) : list (bytes * dm) :=
+                match t with [] => [] | (k, x) :: r => (k, tval_dm e x) :: go r end) t in
+    DMap (match e with
+          | EBind => map (fun kv => (fst kv, last_dm (fst kv) l (snd kv))) l
+          | EGen => l
+          end)
+  | TVL x =>
+    DList ((fix go (x : list tval) : list dm :=
+              match x with [] => [] | a :: r => tval_dm e a :: go r end) x)
   end.
 
 (* NodeBuilder.Build: None = panic *)
